@@ -71,6 +71,10 @@ class PiConfig(SSEConfig):
 
         self.param_identifier_size = config_dict.get("param_identifier_size")
 
+        for length_param in ("param_k", "param_k_prime", "param_l"):
+            if not isinstance(getattr(self, length_param), int) or getattr(self, length_param) <= 0:
+                raise ValueError("Parameter {} should be a positive integer".format(length_param))
+
         self.prf_f = toolkit.prf.get_prf_implementation(config_dict.get("prf_f", ""))(
             key_length=self.param_k,
             output_length=self.param_k + self.param_k_prime)
